@@ -1,5 +1,404 @@
-"""translator targets (registered on import)"""
-from translator.translate import *  # noqa: F401,F403
-from translator.translate import target, load, find_func, header, Sym, TranslationError, REL, int_expr  # noqa: F401
-import ast  # noqa: F401
+"""Tie A targets: static facts about state handling, argument routing, dimension literals and forcing idioms."""
+from __future__ import annotations
 
+import ast
+import os
+
+from translator.translate import target, load, find_func, header, Sym, TranslationError, SRC
+
+
+def lean_str(s):
+    return '"' + s.replace("\\", "\\\\").replace('"', '\\"').replace("\n", " ") + '"'
+
+
+def lean_pairs(d):
+    return "[" + ", ".join(f"({lean_str(k)}, {lean_str(v)})" for k, v in d) + "]"
+
+
+def calls_in(fn, callee):
+    return [n for n in ast.walk(fn) if isinstance(n, ast.Call) and ast.unparse(n.func) == callee]
+
+
+def kwargs_of(call):
+    out = []
+    for k in call.keywords:
+        out.append((k.arg if k.arg is not None else "**", ast.unparse(k.value)))
+    return out
+
+
+# ------------------------------------------------------------------------------------------------- state facts (C14)
+@target("stateFacts", "Facts", ["C14", "C13"])
+def _state():
+    out = []
+    # GenericListTransformer.fit resets the list before appending
+    path = "preprocessing/list_processor.py"
+    src, tree = load(path)
+    fn = find_func(tree, "GenericListTransformer.fit")
+    reset_idx = [i for i, s in enumerate(fn.body) if isinstance(s, ast.Assign) and ast.unparse(s.targets[0]) == "self.transformers" and ast.unparse(s.value) == "[]"]
+    loop_idx = [i for i, s in enumerate(fn.body) if isinstance(s, ast.For) and "self.transformers.append" in ast.unparse(s)]
+    resets = bool(reset_idx) and bool(loop_idx) and reset_idx[0] < loop_idx[0]
+    out += [f"/-- {header(path, 'GenericListTransformer.fit', src, fn)}: the list of per-item transformers is emptied before the new ones are appended -/",
+            f"def listFitResets : Bool := {'true' if resets else 'false'}"]
+    # DataContainer.add stores a copy
+    path = "data_container/data_container.py"
+    src, tree = load(path)
+    fn = find_func(tree, "DataContainer.add")
+    first = fn.body[0] if not (isinstance(fn.body[0], ast.Expr) and isinstance(fn.body[0].value, ast.Constant)) else fn.body[1]
+    copies = isinstance(first, ast.Assign) and ast.unparse(first) == "data = data.copy(deep=False)"
+    out += [f"/-- {header(path, 'DataContainer.add', src, fn)}: a (shallow) copy is taken unconditionally before the entry is named -/",
+            f"def containerAddCopies : Bool := {'true' if copies else 'false'}"]
+    # PCA.fit does not overwrite its configuration
+    path = "preprocessing/pca.py"
+    src, tree = load(path)
+    fn = find_func(tree, "PCA.fit")
+    writes = sorted({ast.unparse(t) for n in ast.walk(fn) if isinstance(n, ast.Assign) for t in n.targets if ast.unparse(t).startswith("self.")})
+    out += [f"/-- {header(path, 'PCA.fit', src, fn)}: attributes written by fit -/",
+            f"def pcaFitWrites : List String := [{', '.join(lean_str(w) for w in writes)}]"]
+    # Transformer._serialize_data does not rename the caller's array
+    path = "preprocessing/transformer.py"
+    src, tree = load(path)
+    fn = find_func(tree, "Transformer._serialize_data")
+    inplace = any(isinstance(n, ast.Assign) and ast.unparse(n.targets[0]) == "data.name" for n in ast.walk(fn))
+    out += [f"/-- {header(path, 'Transformer._serialize_data', src, fn)}: the array handed in is never renamed in place -/",
+            f"def serializeRenamesInPlace : Bool := {'true' if inplace else 'false'}"]
+    # MultiIndexConverter: two separate dicts; transform always records; inverse reads the chosen reference only
+    path = "preprocessing/multi_index_converter.py"
+    src, tree = load(path)
+    init = find_func(tree, "MultiIndexConverter.__init__")
+    init_txt = [ast.unparse(s) for s in init.body]
+    separate = "self.coords_from_fit = {}" in init_txt and "self.coords_from_transform = {}" in init_txt
+    tf = find_func(tree, "MultiIndexConverter.transform")
+    loops = [n for n in tf.body if isinstance(n, ast.For)]
+    always = bool(loops) and any(isinstance(s, ast.Assign) and ast.unparse(s.targets[0]) == "self.coords_from_transform[dim]" for s in loops[0].body)
+    inv = find_func(tree, "MultiIndexConverter._inverse_transform")
+    m = [n for n in inv.body if isinstance(n, ast.Match)]
+    refs = {}
+    if m:
+        for c in m[0].cases:
+            if isinstance(c.pattern, ast.MatchValue):
+                refs[c.pattern.value.value] = ast.unparse(c.body[0])
+    ref_ok = refs == {"fit": "reference_indexes = self.coords_from_fit", "transform": "reference_indexes = self.coords_from_transform"}
+    out += [f"/-- {header(path, 'MultiIndexConverter', src, tf)}: fit-time and transform-time coordinates live in separate dicts, transform always records, "
+            "the inverse reads exactly the dict it is asked for -/",
+            f"def multiIndexDictsSeparate : Bool := {'true' if separate else 'false'}",
+            f"def multiIndexTransformAlwaysRecords : Bool := {'true' if always else 'false'}",
+            f"def multiIndexInverseReadsChosenReference : Bool := {'true' if ref_ok else 'false'}"]
+    # Sanitizer.transform: the fitted mask is only re-assigned to itself
+    path = "preprocessing/sanitizer.py"
+    src, tree = load(path)
+    fn = find_func(tree, "Sanitizer.transform")
+    tup = [n for n in ast.walk(fn) if isinstance(n, ast.Assign) and isinstance(n.targets[0], ast.Tuple) and ast.unparse(n.value.func) == "compute"]
+    if len(tup) != 1:
+        raise TranslationError("joint compute(...) assignment not found in Sanitizer.transform")
+    lhs = [ast.unparse(x) for x in tup[0].targets[0].elts]
+    rhs = [ast.unparse(x) for x in tup[0].value.args]
+    iso = [n for n in ast.walk(fn) if isinstance(n, ast.Assign) and ast.unparse(n.targets[0]) == "isolated_nans"]
+    iso_txt = ast.unparse(iso[0].value) if iso else ""
+    iso_ok = iso_txt == "~X_valid_features_per_sample.isin([0, X_valid_features.sum().values])"
+    cmp_ok = any(isinstance(n, ast.If) and ast.unparse(n.test) == "not X_valid_features.equals(self.is_valid_feature)" for n in ast.walk(fn))
+    out += [f"/-- {header(path, 'Sanitizer.transform', src, fn)}: compute() results are assigned back to the names they were computed from; the isolated-NaN "
+            f"test is `{iso_txt}`; masks are compared with the fitted one -/",
+            f"def sanitizerComputeAssignsInOrder : Bool := {'true' if lhs == rhs else 'false'}",
+            f"def sanitizerIsolatedTestCountsAgainstValidFeatures : Bool := {'true' if iso_ok else 'false'}",
+            f"def sanitizerComparesMaskWithFit : Bool := {'true' if cmp_ok else 'false'}"]
+    return "\n".join(out) + "\n"
+
+
+# ------------------------------------------------------------------------------------------------- routing of arguments
+@target("routingFacts", "Facts", ["C15", "C10", "C20", "C05", "C04", "C17", "C08", "C12"])
+def _routing():
+    out = []
+
+    def emit(name, path, qual, callee, nth=0, doc=""):
+        src, tree = load(path)
+        fn = find_func(tree, qual)
+        cs = calls_in(fn, callee)
+        if len(cs) <= nth:
+            raise TranslationError(f"call #{nth} of {callee} not found in {qual}")
+        cs.sort(key=lambda n: (n.lineno, n.col_offset))
+        out.append(f"/-- {header(path, qual, src, fn)}: keyword arguments of call #{nth} of `{callee}` {doc}-/")
+        out.append(f"def {name} : List (String × String) := {lean_pairs(kwargs_of(cs[nth]))}")
+
+    emit("svdWrapperToSVD", "linalg/svd.py", "SVD.fit_transform", "_SVD")
+    emit("pcaToSVD", "preprocessing/pca.py", "PCA.fit", "SVD")
+    emit("eeofPcaEOF", "single/eeof.py", "ExtendedEOF.__init__", "EOF")
+    emit("eeofInnerEOF", "single/eeof.py", "ExtendedEOF._fit_algorithm", "EOF")
+    emit("opaInnerEOF", "single/opa.py", "OPA._fit_algorithm", "EOF")
+    emit("bootstrapMemberEOF", "validation/bootstrapper.py", "EOFBootstrapper.fit", "EOF")
+    emit("bootstrapRng", "validation/bootstrapper.py", "EOFBootstrapper.fit", "np.random.default_rng")
+    emit("crossPCA1", "cross/base_model_cross_set.py", "BaseModelCrossSet.__init__", "PCA", 0)
+    emit("crossPCA2", "cross/base_model_cross_set.py", "BaseModelCrossSet.__init__", "PCA", 1)
+    emit("crossPreprocessor1", "cross/base_model_cross_set.py", "BaseModelCrossSet.__init__", "Preprocessor", 0)
+    emit("crossPreprocessor2", "cross/base_model_cross_set.py", "BaseModelCrossSet.__init__", "Preprocessor", 1)
+    emit("popPCA", "single/pop.py", "POP.__init__", "PCA")
+    # positional argument of default_rng
+    src, tree = load("validation/bootstrapper.py")
+    fn = find_func(tree, "EOFBootstrapper.fit")
+    c = calls_in(fn, "np.random.default_rng")[0]
+    out.append("/-- the seed expression handed to numpy's generator by the bootstrapper -/")
+    out.append(f"def bootstrapSeedExpr : String := {lean_str(ast.unparse(c.args[0]) if c.args else '')}")
+    # decomposer: random_state reaches the randomised solver unconditionally
+    src, tree = load("linalg/decomposer.py")
+    fn = find_func(tree, "Decomposer.fit")
+    dicts = [n for n in ast.walk(fn) if isinstance(n, ast.Assign) and ast.unparse(n.targets[0]) == "solver_kwargs" and isinstance(n.value, ast.BinOp)]
+    rs = []
+    for d in dicts:
+        if isinstance(d.value.right, ast.Dict):
+            kv = {ast.unparse(k).strip("'"): ast.unparse(v) for k, v in zip(d.value.right.keys, d.value.right.values)}
+            rs.append(kv.get("random_state", kv.get("seed", "<missing>")))
+    cond_rs = any(isinstance(n, ast.If) and "random_state" in ast.unparse(n.test) for n in ast.walk(fn))
+    out.append(f"/-- {header('linalg/decomposer.py', 'Decomposer.fit', src, fn)}: what each non-exact solver branch receives as seed; no branch makes it conditional -/")
+    out.append(f"def decomposerSeedArgs : List String := [{', '.join(lean_str(x) for x in rs)}]")
+    out.append(f"def decomposerSeedIsConditional : Bool := {'true' if cond_rs else 'false'}")
+    # normalised transforms use the fitted norms
+    src, tree = load("single/base_model_single_set.py")
+    fn = find_func(tree, "BaseModelSingleSet.transform")
+    ifs = [n for n in fn.body if isinstance(n, ast.If) and ast.unparse(n.test) == "normalized"]
+    body = [ast.unparse(s) for s in (ifs[0].body if ifs else [])]
+    out.append(f"/-- {header('single/base_model_single_set.py', 'BaseModelSingleSet.transform', src, fn)}: the `normalized` branch -/")
+    out.append(f"def singleTransformNormalizedBody : List String := [{', '.join(lean_str(x) for x in body)}]")
+    fn = find_func(tree, "BaseModelSingleSet.inverse_transform")
+    ifs = [n for n in fn.body if isinstance(n, ast.If) and ast.unparse(n.test) == "normalized"]
+    body = [ast.unparse(s) for s in (ifs[0].body if ifs else [])]
+    first_if = next((i for i, s in enumerate(fn.body) if isinstance(s, ast.If)), None)
+    out.append("/-- `BaseModelSingleSet.inverse_transform`: the `normalized` branch (selecting the norms by the scores' mode labels raises for unknown modes) -/")
+    out.append(f"def singleInverseNormalizedBody : List String := [{', '.join(lean_str(x) for x in body)}]")
+    src, tree = load("cross/cpcca.py")
+    fn = find_func(tree, "CPCCA._transform_algorithm")
+    asg = [(ast.unparse(n.targets[0]), ast.unparse(n.value)) for n in ast.walk(fn) if isinstance(n, ast.Assign) and ast.unparse(n.targets[0]) in ("norm1", "norm2", "comps1", "comps2")]
+    out.append(f"/-- {header('cross/cpcca.py', 'CPCCA._transform_algorithm', src, fn)}: which stored entries each field is projected on / normalised with -/")
+    out.append(f"def cpccaTransformSources : List (String × String) := {lean_pairs(sorted(asg))}")
+    # Preprocessor / concatenator / renamer facts
+    src, tree = load("preprocessing/concatenator.py")
+    fn = find_func(tree, "Concatenator.transform")
+    cc = calls_in(fn, "xr.concat")
+    out.append(f"/-- {header('preprocessing/concatenator.py', 'Concatenator.transform', src, fn)}: keyword arguments of xr.concat (default join = align by label) -/")
+    out.append(f"def concatenatorConcatKwargs : List (String × String) := {lean_pairs(kwargs_of(cc[0]) if cc else [('<missing>', '')])}")
+    src, tree = load("preprocessing/dimension_renamer.py")
+    fn = find_func(tree, "DimensionRenamer.fit")
+    od = [ast.unparse(n.value) for n in ast.walk(fn) if isinstance(n, ast.Assign) and ast.unparse(n.targets[0]) == "ordered_dims"]
+    out.append(f"/-- {header('preprocessing/dimension_renamer.py', 'DimensionRenamer.fit', src, fn)}: order in which dimensions receive their generic names -/")
+    out.append(f"def renamerOrderedDims : String := {lean_str(od[0] if od else '')}")
+    return "\n".join(out) + "\n"
+
+
+# ------------------------------------------------------------------------------------------------- dimension literals (C07, C20)
+DIM_KW = {"dim", "dims", "input_core_dims", "output_core_dims", "exclude_dims"}
+DIM_METHODS = {"shift", "isel", "sel", "mean", "std", "sum", "var", "rename", "dropna", "stack", "unstack", "transpose", "cumsum", "dot", "concat", "drop_vars", "expand_dims", "assign_coords"}
+SUSPECT = {"sample", "feature"}
+
+
+@target("literalDimUses", "Facts", ["C07", "C20"])
+def _literals():
+    hits = []
+    files = []
+    for sub in ("single", "cross", "validation", "multi"):
+        d = os.path.join(SRC, sub)
+        for f in sorted(os.listdir(d)):
+            if f.endswith(".py") and not f.startswith("_"):
+                files.append(f"{sub}/{f}")
+    for path in files:
+        if path in ("single/gwpca.py", "multi/cca.py"):
+            continue  # gwpca: not modelled (no property anchors there); multi.CCA offers no sample_name/feature_name option
+        src, tree = load(path)
+        for node in ast.walk(tree):
+            if not isinstance(node, ast.Call):
+                continue
+            fname = node.func.attr if isinstance(node.func, ast.Attribute) else (node.func.id if isinstance(node.func, ast.Name) else "")
+            lits = []
+            if fname in DIM_METHODS or fname in ("apply_ufunc", "dot", "concat"):
+                for a in node.args:
+                    lits += _dim_literals(a)
+                for k in node.keywords:
+                    if k.arg in SUSPECT:  # .shift(sample=...), .isel(sample=...)
+                        lits.append(k.arg)
+                    if k.arg in DIM_KW or k.arg is None or fname in DIM_METHODS:
+                        lits += _dim_literals(k.value)
+            for k in node.keywords:
+                if k.arg in ("dim", "dims") and fname not in DIM_METHODS:
+                    lits += _dim_literals(k.value)
+            for lit in lits:
+                hits.append(f"{path}:{node.lineno}:{fname}:{lit}")
+        # attribute access like `input_data.sample`
+        for node in ast.walk(tree):
+            if isinstance(node, ast.Attribute) and node.attr in SUSPECT and isinstance(node.ctx, ast.Load):
+                base = ast.unparse(node.value)
+                if not base.startswith("self") and base not in ("np", "xr"):
+                    hits.append(f"{path}:{node.lineno}:attr:{node.attr}")
+    hits = sorted(set(hits))
+    return ("/-- uses of the literal dimension names 'sample' / 'feature' inside the model classes (xeofs/single, cross, validation): "
+            "models must address dimensions through sample_name / feature_name -/\n"
+            f"def literalDimUses : List String := [{', '.join(lean_str(h) for h in hits)}]\n")
+
+
+def _dim_literals(e):
+    out = []
+    for n in ast.walk(e):
+        if isinstance(n, ast.Constant) and isinstance(n.value, str) and n.value in SUSPECT:
+            out.append(n.value)
+        if isinstance(n, ast.Dict):
+            for k in n.keys:
+                if isinstance(k, ast.Constant) and k.value in SUSPECT:
+                    out.append(k.value)
+    return out
+
+
+# ------------------------------------------------------------------------------------------------- forcing idioms (C12)
+FORCE_ATTRS = {"values", "item", "compute", "load", "persist", "to_numpy", "tolist"}
+FIT_PATHS = [
+    ("preprocessing/scaler.py", "Scaler.fit"), ("preprocessing/scaler.py", "Scaler.transform"),
+    ("preprocessing/sanitizer.py", "Sanitizer.fit"), ("preprocessing/sanitizer.py", "Sanitizer.transform"),
+    ("preprocessing/stacker.py", "Stacker.fit"), ("preprocessing/stacker.py", "Stacker.transform"),
+    ("preprocessing/concatenator.py", "Concatenator.fit"), ("preprocessing/concatenator.py", "Concatenator.transform"),
+    ("preprocessing/pca.py", "PCA.fit"), ("preprocessing/whitener.py", "Whitener.fit"),
+    ("preprocessing/whitener.py", "Whitener._compute_whitener_transform_numpy"),
+    ("linalg/svd.py", "SVD.fit_transform"), ("linalg/_numpy/_svd.py", "_SVD.fit_transform"), ("linalg/_numpy/_utils.py", "_fractional_matrix_power"),
+    ("linalg/decomposer.py", "Decomposer.fit"), ("linalg/decomposer.py", "Decomposer._compute_svd_result"),
+    ("linalg/_numpy/_rotation.py", "_varimax"), ("linalg/_numpy/_rotation.py", "_promax"),
+    ("single/eof.py", "EOF._fit_algorithm"), ("single/eeof.py", "ExtendedEOF._fit_algorithm"),
+    ("single/eof_rotator.py", "EOFRotator._fit_algorithm"), ("cross/cpcca.py", "CPCCA._fit_algorithm"),
+    ("cross/cpcca_rotator.py", "CPCCARotator._fit_algorithm"), ("cross/base_model_cross_set.py", "BaseModelCrossSet.fit"),
+    ("single/base_model_single_set.py", "BaseModelSingleSet.fit"), ("utils/xarray_utils.py", "get_deterministic_sign_multiplier"),
+    ("utils/xarray_utils.py", "argsort_dask"),
+]
+
+
+def guard_class(g):
+    """the condition a forcing site sits under, reduced to the option that controls it"""
+    parts = [p.strip() for p in g.split(" and ")]
+    first = parts[0]
+    if g == "always":
+        return "always"
+    if first in ("self.get_params()['compute']", "self._params['compute']", "self.compute_svd", "compute", "match self.compute case True", "params['compute']"):
+        return "compute"
+    if first == "self.check_nans":
+        return "check_nans"
+    if first == "self.is_based_on_variance":
+        return "variance_threshold"
+    return "unrecognised: " + g
+
+
+@target("forcingSites", "Facts", ["C12"])
+def _forcing():
+    sites = []
+    for path, qual in FIT_PATHS:
+        src, tree = load(path)
+        fn = find_func(tree, qual)
+        parents = {}
+        for p in ast.walk(fn):
+            for c in ast.iter_child_nodes(p):
+                parents[c] = p
+
+        def guard_of(node):
+            g = []
+            cur = node
+            while cur in parents:
+                par = parents[cur]
+                if isinstance(par, ast.If):
+                    side = "" if cur in par.body else "not "
+                    g.append(side + ast.unparse(par.test))
+                if isinstance(par, ast.match_case):
+                    mm = parents.get(par)
+                    g.append(f"match {ast.unparse(mm.subject)} case {ast.unparse(par.pattern)}")
+                cur = par
+            return " and ".join(reversed(g)) if g else "always"
+
+        call_funcs = {id(n.func) for n in ast.walk(fn) if isinstance(n, ast.Call)}
+        for node in ast.walk(fn):
+            kind = None
+            if isinstance(node, ast.Attribute) and node.attr in FORCE_ATTRS and isinstance(node.ctx, ast.Load):
+                base = ast.unparse(node.value)
+                is_called = id(node) in call_funcs
+                if node.attr == "values":
+                    # `.values` of an array is a property; a called `.values()` is a dict method
+                    if is_called or ".coords[" in base or base.endswith("_coords") or "idx_modes_sorted" in base:
+                        continue
+                    kind = ".values"
+                elif is_called and base not in ("dask", "self"):
+                    kind = "." + node.attr + "()"
+            if isinstance(node, ast.Call) and ast.unparse(node.func) in ("dask.compute", "compute", "dask_compute", "bool"):
+                kind = ast.unparse(node.func) + "()"
+            if isinstance(node, ast.If):
+                t = ast.unparse(node.test)
+                if any(x in t for x in (".any()", ".all()")):
+                    kind = "if-on-array"
+                if "delta" in t and "rtol" in t:
+                    kind = "if-on-array"
+            if kind:
+                g = guard_of(node) if not isinstance(node, ast.If) else (guard_of(node) + " and " if guard_of(node) != "always" else "") + ast.unparse(node.test)
+                sites.append((f"{path}:{qual}:{kind}", guard_class(g)))
+    sites = sorted(set(sites))
+    return ("/-- every place on a fit path where a lazy array would be materialised, with the guard it sits under -/\n"
+            f"def forcingSites : List (String × String) := {lean_pairs(sites)}\n")
+
+
+# ------------------------------------------------------------------------------------------------- attribute codec (C13)
+@target("codecFacts", "Codec", ["C13"])
+def _codec():
+    path = "utils/io.py"
+    src, tree = load(path)
+    fn = find_func(tree, "_sanitize_attrs_nc")
+    sym = Sym(fn)
+    st = sym.defs.get("sanitized_types")
+    types = [ast.unparse(x) for x in st.elts]
+    fn2 = find_func(tree, "_should_desanitize")
+    if len(fn2.body) != 2 or not isinstance(fn2.body[0], ast.If):
+        raise TranslationError("unexpected shape of _should_desanitize")
+    outer = fn2.body[0]
+    guard = ast.unparse(outer.test)
+    if guard == "isinstance(attr, str) and len(attr) > 0":
+        empty_guard = True
+    elif guard == "isinstance(attr, str)":
+        empty_guard = False
+    else:
+        raise TranslationError("unexpected guard " + guard)
+    inner = outer.body[0]
+    if not (isinstance(inner, ast.If) and isinstance(inner.test, ast.BoolOp) and isinstance(inner.test.op, ast.Or)):
+        raise TranslationError("unexpected inner test")
+    conds = []
+    for c in inner.test.values:
+        s = ast.unparse(c)
+        if s == "attr[0] == '{' and attr[-1] == '}'":
+            conds.append("(first == '{' && last == '}')")
+        elif s == "attr[0] == '[' and attr[-1] == ']'":
+            conds.append("(first == '[' && last == ']')")
+        elif s == "attr in ['True', 'False']":
+            conds.append('(s == "True" || s == "False")')
+        elif s == "attr == 'None'":
+            conds.append('(s == "None")')
+        else:
+            raise TranslationError("unknown look-alike test: " + s)
+    body = " || ".join(conds)
+    fn3 = find_func(tree, "_desanitize_attrs_nc")
+    uses = [ast.unparse(n.value) for n in ast.walk(fn3) if isinstance(n, ast.Assign)]
+    tolerant = all("_literal_eval_or_keep(attr)" in u for u in uses) and len(uses) == 2
+    loops = [ast.unparse(n.iter) for n in ast.walk(fn3) if isinstance(n, ast.For)]
+    loops_s = [ast.unparse(n.iter) for n in ast.walk(fn) if isinstance(n, ast.For)]
+    keep = find_func(tree, "_literal_eval_or_keep") if tolerant else None
+    return (f"/-- {header(path, '_sanitize_attrs_nc', src, fn)}: Python types that are stringified for netCDF -/\n"
+            f"def sanitizedTypes : List String := [{', '.join(lean_str(t) for t in types)}]\n"
+            f"/-- {header(path, '_should_desanitize', src, fn2)}: the look-alike test on a string; `none` = IndexError on the empty string -/\n"
+            "def shouldDesanitizeStr (s : String) : Option Bool :=\n"
+            "  match s.toList with\n"
+            f"  | [] => {'some false' if empty_guard else 'none'}\n"
+            "  | first :: rest =>\n"
+            "    let last := (first :: rest).getLast!\n"
+            f"    some ({body})\n"
+            f"/-- {header(path, '_desanitize_attrs_nc', src, fn3)}: strings that are no Python literal are kept; both codecs walk the same attribute holders -/\n"
+            f"def desanitizeKeepsNonLiterals : Bool := {'true' if tolerant else 'false'}\n"
+            f"def sanitizeLoops : List String := [{', '.join(lean_str(x) for x in loops_s)}]\n"
+            f"def desanitizeLoops : List String := [{', '.join(lean_str(x) for x in loops)}]\n")
+
+
+@target("serializationFacts", "Facts", ["C13"])
+def _serialization():
+    path = "preprocessing/preprocessor.py"
+    src, tree = load(path)
+    fn = find_func(tree, "Preprocessor.deserialize")
+    loops = [ast.unparse(n.iter) for n in ast.walk(fn) if isinstance(n, ast.For)]
+    fn2 = find_func(tree, "Preprocessor.serialize")
+    keys = [ast.unparse(n.targets[0]) for n in ast.walk(fn2) if isinstance(n, ast.Assign) and "dt_transformer.transformers[" in ast.unparse(n.targets[0])]
+    return (f"/-- {header(path, 'Preprocessor.deserialize', src, fn)}: iteration orders used when the list transformers are rebuilt (insertion order of the "
+            "serialised members = fit order) -/\n"
+            f"def preprocessorDeserializeLoops : List String := [{', '.join(lean_str(x) for x in loops)}]\n"
+            f"def preprocessorSerializeKeys : List String := [{', '.join(lean_str(x) for x in keys)}]\n")
